@@ -35,6 +35,10 @@ CHECKS["C16"] = ("§5 C16", "Every template of 0..2 segments (3 thorough; 4 in s
 CHECKS["C17"] = ("§5 C17", "Metric tracepoints delivered as real protobuf definitions through convert_response and driven through the real handler: per permitted hit "
     "and per processor one call per definition via the operation named by its type, with name/namespace(default deep)/help/unit, labels (static/expression/failing), "
     "value = expression as number or 1; no processor => nothing reported and no budget used. Selector spaces enumerated by the solver.")
+CHECKS["C18"] = ("§5 C18", "Inductive step of the real BoundedAttributes (one of 7 operations from any of 16 ordered states, symbolic drop counter, free symbolic string "
+    "values against the value limit, 5 capacities, frozen/not) against a reference model - covers operation histories of any length over the modelled key set; value "
+    "cleaning over 17 value shapes with symbolic elements; construction/eviction; Resource.merge chains (precedence, schema rule, operands unchanged); Resource.create + "
+    "detector + Deep.start plugin merge under a controlled environment, and the resource carried by the real PollRequest.")
 PENDING = {}
 
 def main():
